@@ -3,21 +3,41 @@ C08 helper lemmas for M-OrderNotify: it is M-GlyphOrder plus deliveries (`stepN_
 glyph order — whatever triggers it — announces exactly one truthful `Font.GlyphOrderChanged` when the getter's
 answer changes.
 -/
-import DefconModel.OrderNotify
+import DefconModel.Spec.OrderNotify
 
 namespace DefconModel
 namespace OrderNotify
-open GlyphOrderV1
+open GlyphOrder
 
-/-- sentence 1 for one delivery: old = what `font.glyphOrder` answered before the operation, new = what it
-answers when the observer is called — which is also what it answers after the operation (payload and getter
-compared modulo `None == []`: the payload is the stored lib value) -/
-def OrdEv.Truthful (before after : List Name) (ev : OrdEv) : Prop :=
-  norm ev.old = before ∧ norm ev.new = norm ev.snap ∧ norm ev.snap = after
+theorem chain_nil (o : List Name) : Chain o o [] := rfl
 
-/-- what is claimed of the deliveries of one operation that takes the getter from `before` to `after` -/
-def Announced (before after : List Name) (evs : List OrdEv) : Prop :=
-  (∀ ev ∈ evs, ev.Truthful before after) ∧ evs.length ≤ 1 ∧ (after ≠ before → evs.length = 1)
+theorem chain_append {a b c : List Name} {xs ys : List OrdEv} (h1 : Chain a b xs) (h2 : Chain b c ys) :
+    Chain a c (xs ++ ys) := by
+  induction xs generalizing a with
+  | nil => simp only [Chain] at h1; subst h1; simpa using h2
+  | cons x xs ih => exact ⟨h1.1, h1.2.1, ih h1.2.2⟩
+
+theorem chain_changed {a b : List Name} {evs : List OrdEv} (h : Chain a b evs) (hne : b ≠ a) : evs ≠ [] := by
+  intro he; subst he; exact hne h
+
+/-- the last new value of a chain is the order after -/
+theorem chain_last {a b : List Name} {evs : List OrdEv} (h : Chain a b evs) (ev : OrdEv)
+    (hl : evs.getLast? = some ev) : norm ev.new = b := by
+  induction evs generalizing a with
+  | nil => simp at hl
+  | cons x xs ih =>
+    cases xs with
+    | nil =>
+      simp at hl; subst hl
+      have := h.2.2; simp only [Chain] at this
+      rw [h.2.1, this]
+    | cons y ys => exact ih h.2.2 (by simpa [List.getLast?_cons_cons] using hl)
+
+theorem chain_head {a b : List Name} {evs : List OrdEv} (h : Chain a b evs) (ev : OrdEv)
+    (hh : evs.head? = some ev) : norm ev.old = a := by
+  cases evs with
+  | nil => simp at hh
+  | cons x xs => simp at hh; subst hh; exact h.1
 
 theorem setGlyphOrderN_fst (f : Font) (v : Option (List Name)) : (setGlyphOrderN f v).1 = setGlyphOrder f v := by
   unfold setGlyphOrderN setGlyphOrder
@@ -63,96 +83,299 @@ theorem updateGlyphOrderN_announced (f : Font) (a r : Option Name) :
   · simp [Announced]
   · exact setGlyphOrderN_announced _ _
 
-theorem glyphOrder_setLayer (f : Font) (n : String) (l : Layer) : glyphOrder (setLayer f n l) = glyphOrder f := rfl
-
-theorem stepN_fst (f : Font) (op : Op) : (stepN f op).1 = step f op := by
-  cases op with
-  | newGlyph l g =>
-    simp only [stepN, step, newGlyphN, newGlyph]
-    cases AL.get? f.layers l with
-    | none => rfl
-    | some x => by_cases ho : x.observed <;> simp [ho, glyphAddedCbN, glyphAddedCb, updateGlyphOrderN_fst]
-  | insertGlyph l g =>
-    simp only [stepN, step, newGlyphN, insertGlyph, newGlyph]
-    cases AL.get? f.layers l with
-    | none => rfl
-    | some x => by_cases ho : x.observed <;> simp [ho, glyphAddedCbN, glyphAddedCb, updateGlyphOrderN_fst]
-  | delGlyph l g =>
-    simp only [stepN, step, delGlyphN, delGlyph]
-    cases AL.get? f.layers l with
-    | none => rfl
-    | some x =>
-      by_cases hg : g ∈ x.glyphs
-      · by_cases ho : x.observed
-        · simp only [hg, ho, if_true, glyphDeletedCbN, glyphDeletedCb]
-          split <;> simp [updateGlyphOrderN_fst]
-        · simp [hg, ho]
-      · simp [hg]
-  | rename l o n =>
-    simp only [stepN, step, renameN, rename]
-    cases AL.get? f.layers l with
-    | none => rfl
-    | some x =>
-      by_cases hg : o ∈ x.glyphs
-      · by_cases he : o = n
-        · subst he; simp [hg]
-        · by_cases ho : x.observed <;> simp [hg, he, ho, glyphRenamedCbN, glyphRenamedCb, updateGlyphOrderN_fst]
-      · simp [hg]
-  | setOrder v => simp [stepN, step, setGlyphOrderN_fst]
-  | setLib v => rfl
-  | newLayer n => rfl
-  | delLayer n => rfl
+theorem chain_of_announced {a b : List Name} {evs : List OrdEv} (h : Announced a b evs) : Chain a b evs := by
+  obtain ⟨ht, hle, hne⟩ := h
+  match evs, ht, hle, hne with
+  | [], _, _, hne =>
+    simp only [Chain]
+    by_cases e : b = a
+    · exact e
+    · have := hne e; simp at this
+  | [ev], ht, _, _ =>
+    have := ht ev (by simp)
+    exact ⟨this.1, this.2.1, this.2.2.symm⟩
+  | _ :: _ :: _, _, hle, _ => simp at hle
 
 theorem announced_nil (o : List Name) : Announced o o [] := by simp [Announced]
 
-theorem stepN_announced (f : Font) (op : Op) (h : viaFont op = true) :
+theorem glyphOrder_setLayer (f : Font) (n : String) (l : Layer) : glyphOrder (setLayer f n l) = glyphOrder f := rfl
+
+/-! ### `deliver`, `post`, `flush` -/
+
+theorem deliverN_fst (f : Font) (note : Note) : (deliverN f note).1 = deliver f note := by
+  cases note with
+  | added n => simp [deliverN, deliver, glyphAddedCbN, glyphAddedCb, updateGlyphOrderN_fst]
+  | deleted n =>
+    simp only [deliverN, deliver, glyphDeletedCbN, glyphDeletedCb]
+    split <;> simp [updateGlyphOrderN_fst]
+  | renamed o n => simp [deliverN, deliver, glyphRenamedCbN, glyphRenamedCb, updateGlyphOrderN_fst]
+
+theorem deliverN_announced (f : Font) (note : Note) :
+    Announced (glyphOrder f) (glyphOrder (deliverN f note).1) (deliverN f note).2 := by
+  cases note with
+  | added n => exact updateGlyphOrderN_announced _ _ _
+  | deleted n =>
+    simp only [deliverN, glyphDeletedCbN]
+    split
+    · exact announced_nil _
+    · exact updateGlyphOrderN_announced _ _ _
+  | renamed o n => exact updateGlyphOrderN_announced _ _ _
+
+theorem postN_fst (f : Font) (L : String) (note : Note) : (postN f L note).1 = post f L note := by
+  simp only [postN, post]
+  cases AL.get? f.layers L with
+  | none => rfl
+  | some l =>
+    by_cases hd : l.disabled ≠ 0
+    · simp [hd]
+    · by_cases hh : l.held ≠ 0
+      · simp [hd, hh]
+      · by_cases ho : l.observed <;> simp [hd, hh, ho, deliverN_fst]
+
+theorem postN_announced (f : Font) (L : String) (note : Note) :
+    Announced (glyphOrder f) (glyphOrder (postN f L note).1) (postN f L note).2 := by
+  simp only [postN]
+  split
+  · exact announced_nil _
+  · split
+    · exact announced_nil _
+    · split
+      · exact announced_nil _
+      · split
+        · exact deliverN_announced _ _
+        · exact announced_nil _
+
+theorem flushN_fst (f : Font) (L : String) (q : List Note) : (flushN f L q).1 = flush f L q := by
+  induction q generalizing f with
+  | nil => rfl
+  | cons n ns ih => simp only [flushN, flush, postN_fst, ih]
+
+theorem flushN_chain (f : Font) (L : String) (q : List Note) :
+    Chain (glyphOrder f) (glyphOrder (flushN f L q).1) (flushN f L q).2 := by
+  induction q generalizing f with
+  | nil => exact chain_nil _
+  | cons n ns ih =>
+    simp only [flushN]
+    exact chain_append (chain_of_announced (postN_announced f L n)) (ih _)
+
+/-! ### the operations -/
+
+theorem releaseLayerN_fst (f : Font) (L : String) : (releaseLayerN f L).1 = releaseLayer f L := by
+  simp only [releaseLayerN, releaseLayer]
+  cases AL.get? f.layers L with
+  | none => rfl
+  | some l =>
+    by_cases h0 : l.held = 0
+    · simp [h0]
+    · by_cases h1 : l.held = 1
+      · simp [h1, flushN_fst]
+      · simp [h0, h1]
+
+theorem releaseLayerN_chain (f : Font) (L : String) :
+    Chain (glyphOrder f) (glyphOrder (releaseLayerN f L).1.1) (releaseLayerN f L).2 := by
+  simp only [releaseLayerN]
+  cases AL.get? f.layers L with
+  | none => exact chain_nil _
+  | some l =>
+    by_cases h0 : l.held = 0
+    · simp only [h0, if_true]; exact chain_nil _
+    · by_cases h1 : l.held = 1
+      · simp only [h1, if_true, if_false, Nat.one_ne_zero]
+        exact flushN_chain (setLayer f L { l with held := 0, queue := [] }) L l.queue
+      · simp only [h0, h1, if_false]; exact chain_nil _
+
+theorem newGlyphN_fst (f : Font) (L : String) (g : Name) : (newGlyphN f L g).1 = newGlyph f L g := by
+  simp only [newGlyphN, newGlyph]
+  cases AL.get? f.layers L with
+  | none => rfl
+  | some l => simp [postN_fst]
+
+theorem newGlyphN_announced (f : Font) (L : String) (g : Name) :
+    Announced (glyphOrder f) (glyphOrder (newGlyphN f L g).1.1) (newGlyphN f L g).2 := by
+  simp only [newGlyphN]
+  split
+  · exact announced_nil _
+  · exact postN_announced _ _ _
+
+theorem glyphOrder_holdLayer (f : Font) (L : String) : glyphOrder (holdLayer f L).1 = glyphOrder f := by
+  simp only [holdLayer]
+  split <;> rfl
+
+theorem insertGlyphN_fst (f : Font) (L : String) (g : Name) : (insertGlyphN f L g).1 = insertGlyph f L g := by
+  simp only [insertGlyphN, insertGlyph]
+  cases AL.get? f.layers L with
+  | none => rfl
+  | some l => simp [newGlyphN_fst, releaseLayerN_fst]
+
+theorem insertGlyphN_chain (f : Font) (L : String) (g : Name) :
+    Chain (glyphOrder f) (glyphOrder (insertGlyphN f L g).1.1) (insertGlyphN f L g).2 := by
+  simp only [insertGlyphN]
+  split
+  · exact chain_nil _
+  · have h1 := chain_of_announced (newGlyphN_announced (holdLayer f L).1 L g)
+    rw [glyphOrder_holdLayer] at h1
+    exact chain_append h1 (releaseLayerN_chain _ _)
+
+theorem delGlyphN_fst (f : Font) (L : String) (g : Name) : (delGlyphN f L g).1 = delGlyph f L g := by
+  simp only [delGlyphN, delGlyph]
+  cases AL.get? f.layers L with
+  | none => rfl
+  | some l => by_cases hg : g ∈ l.glyphs <;> simp [hg, postN_fst]
+
+theorem delGlyphN_announced (f : Font) (L : String) (g : Name) :
+    Announced (glyphOrder f) (glyphOrder (delGlyphN f L g).1.1) (delGlyphN f L g).2 := by
+  simp only [delGlyphN]
+  split
+  · exact announced_nil _
+  · split
+    · exact postN_announced _ _ _
+    · exact announced_nil _
+
+theorem renameN_fst (f : Font) (L : String) (o n : Name) : (renameN f L o n).1 = rename f L o n := by
+  simp only [renameN, rename]
+  cases AL.get? f.layers L with
+  | none => rfl
+  | some l =>
+    by_cases hg : o ∈ l.glyphs
+    · by_cases he : o = n
+      · subst he; simp [hg]
+      · simp [hg, he, postN_fst]
+    · simp [hg]
+
+theorem renameN_announced (f : Font) (L : String) (o n : Name) :
+    Announced (glyphOrder f) (glyphOrder (renameN f L o n).1.1) (renameN f L o n).2 := by
+  simp only [renameN]
+  split
+  · exact announced_nil _
+  · split
+    · split
+      · exact announced_nil _
+      · exact postN_announced _ _ _
+    · exact announced_nil _
+
+/-- M-OrderNotify is M-GlyphOrder plus posts: same font, same result, for every operation -/
+theorem stepN_fst (f : Font) (op : Op) : (stepN f op).1 = step f op := by
+  cases op with
+  | newGlyph l g => exact newGlyphN_fst f l g
+  | insertGlyph l g => exact insertGlyphN_fst f l g
+  | delGlyph l g => exact delGlyphN_fst f l g
+  | rename l o n => exact renameN_fst f l o n
+  | setOrder v => simp [stepN, step, setGlyphOrderN_fst]
+  | fontNewGlyph g =>
+    simp only [stepN, step, fontNewGlyphN, fontNewGlyph]
+    cases f.default with
+    | none => rfl
+    | some L => exact newGlyphN_fst f L g
+  | fontInsertGlyph g =>
+    simp only [stepN, step, fontInsertGlyphN, fontInsertGlyph]
+    cases f.default with
+    | none => rfl
+    | some L => exact insertGlyphN_fst f L g
+  | fontDelGlyph g =>
+    simp only [stepN, step, fontDelGlyphN, fontDelGlyph]
+    cases f.default with
+    | none => by_cases hg : g ∈ f.ghost <;> simp [hg]
+    | some L => exact delGlyphN_fst f L g
+  | releaseLayer l => exact releaseLayerN_fst f l
+  | setLib v => rfl
+  | newLayer n => rfl
+  | delLayer n => rfl
+  | renameLayer o n => rfl
+  | setLayerOrder ns => rfl
+  | setDefault n => rfl
+  | holdLayer l => rfl
+  | disableLayer l => rfl
+  | enableLayer l => rfl
+  | holdFont => rfl
+  | releaseFont => rfl
+
+/-! the operations that post nothing leave the stored order alone -/
+
+theorem lib_newLayer (f : Font) (n : String) : (newLayer f n).1.lib = f.lib := by
+  simp only [newLayer]; split <;> rfl
+theorem lib_delLayer (f : Font) (n : String) : (delLayer f n).1.lib = f.lib := by
+  simp only [delLayer]; split
+  · rfl
+  · split <;> rfl
+theorem lib_renameLayer (f : Font) (o n : String) : (renameLayer f o n).1.lib = f.lib := by
+  simp only [renameLayer]; split
+  · rfl
+  · split
+    · rfl
+    · split
+      · rfl
+      · split <;> rfl
+theorem lib_setLayerOrder (f : Font) (ns : List String) : (setLayerOrder f ns).1.lib = f.lib := by
+  simp only [setLayerOrder]; split
+  · rfl
+  · split <;> rfl
+theorem lib_setDefault (f : Font) (n : String) : (setDefault f n).1.lib = f.lib := by
+  simp only [setDefault]; split <;> rfl
+theorem lib_holdLayer (f : Font) (n : String) : (holdLayer f n).1.lib = f.lib := by
+  simp only [holdLayer]; split <;> rfl
+theorem lib_disableLayer (f : Font) (n : String) : (disableLayer f n).1.lib = f.lib := by
+  simp only [disableLayer]; split <;> rfl
+theorem lib_enableLayer (f : Font) (n : String) : (enableLayer f n).1.lib = f.lib := by
+  simp only [enableLayer]; split
+  · rfl
+  · split <;> rfl
+theorem lib_releaseFont (f : Font) : (releaseFont f).1.lib = f.lib := by
+  simp only [releaseFont]; split <;> rfl
+
+theorem announced_of_lib {f f' : Font} (h : f'.lib = f.lib) : Announced (glyphOrder f) (glyphOrder f') [] := by
+  simp [Announced, glyphOrder, h]
+
+/-- operations that post at most one layer notification: at most one truthful `Font.GlyphOrderChanged`, and one
+whenever the getter's answer changes -/
+theorem stepN_announced (f : Font) (op : Op) (h : viaFont op = true) (hs : singlePost op = true) :
     Announced (glyphOrder f) (glyphOrder (stepN f op).1.1) (stepN f op).2 := by
   cases op with
-  | newGlyph l g =>
-    simp only [stepN, newGlyphN]
-    split
-    · exact announced_nil _
-    · split
-      · exact updateGlyphOrderN_announced _ _ _
-      · exact announced_nil _
-  | insertGlyph l g =>
-    simp only [stepN, newGlyphN]
-    split
-    · exact announced_nil _
-    · split
-      · exact updateGlyphOrderN_announced _ _ _
-      · exact announced_nil _
-  | delGlyph l g =>
-    simp only [stepN, delGlyphN]
-    split
-    · exact announced_nil _
-    · split
-      · split
-        · simp only [glyphDeletedCbN]
-          split
-          · exact announced_nil _
-          · exact updateGlyphOrderN_announced _ _ _
-        · exact announced_nil _
-      · exact announced_nil _
-  | rename l o n =>
-    simp only [stepN, renameN]
-    split
-    · exact announced_nil _
-    · split
-      · split
-        · exact announced_nil _
-        · split
-          · exact updateGlyphOrderN_announced _ _ _
-          · exact announced_nil _
-      · exact announced_nil _
+  | newGlyph l g => exact newGlyphN_announced f l g
+  | insertGlyph l g => simp [singlePost] at hs
+  | delGlyph l g => exact delGlyphN_announced f l g
+  | rename l o n => exact renameN_announced f l o n
   | setOrder v => exact setGlyphOrderN_announced f v
+  | fontNewGlyph g =>
+    simp only [stepN, fontNewGlyphN]
+    split
+    · exact newGlyphN_announced _ _ _
+    · exact announced_of_lib rfl
+  | fontInsertGlyph g => simp [singlePost] at hs
+  | fontDelGlyph g =>
+    simp only [stepN, fontDelGlyphN]
+    split
+    · exact delGlyphN_announced _ _ _
+    · split
+      · exact announced_of_lib rfl
+      · exact announced_nil _
+  | releaseLayer l => simp [singlePost] at hs
   | setLib v => simp [viaFont] at h
-  | newLayer n =>
-    simp only [stepN, newLayer]
-    split <;> exact announced_nil _
-  | delLayer n =>
-    simp only [stepN, delLayer]
-    split <;> exact announced_nil _
+  | newLayer n => exact announced_of_lib (lib_newLayer f n)
+  | delLayer n => exact announced_of_lib (lib_delLayer f n)
+  | renameLayer o n => exact announced_of_lib (lib_renameLayer f o n)
+  | setLayerOrder ns => exact announced_of_lib (lib_setLayerOrder f ns)
+  | setDefault n => exact announced_of_lib (lib_setDefault f n)
+  | holdLayer l => exact announced_of_lib (lib_holdLayer f l)
+  | disableLayer l => exact announced_of_lib (lib_disableLayer f l)
+  | enableLayer l => exact announced_of_lib (lib_enableLayer f l)
+  | holdFont => exact announced_of_lib rfl
+  | releaseFont => exact announced_of_lib (lib_releaseFont f)
+
+/-- every operation through the font or its layers, releases of held layers included: the posts form a chain from
+the order before to the order after -/
+theorem stepN_chain (f : Font) (op : Op) (h : viaFont op = true) :
+    Chain (glyphOrder f) (glyphOrder (stepN f op).1.1) (stepN f op).2 := by
+  by_cases hs : singlePost op = true
+  · exact chain_of_announced (stepN_announced f op h hs)
+  · cases op with
+    | insertGlyph l g => exact insertGlyphN_chain f l g
+    | fontInsertGlyph g =>
+      simp only [stepN, fontInsertGlyphN]
+      split
+      · exact insertGlyphN_chain _ _ _
+      · exact chain_nil _
+    | releaseLayer l => exact releaseLayerN_chain f l
+    | _ => simp [singlePost] at hs
 
 end OrderNotify
 end DefconModel
